@@ -145,6 +145,46 @@ void g_consume(g_world &W, Gen &g, vf::rng r, bool allow_sync, bool helper_resol
     W.consumer_done.store(1, std::memory_order_release);
 }
 
+// consumer that is ONE coroutine for the whole sequence: its thread's ready queue stays active between the steps, so anything the
+// library defers through that queue is still outstanding when the next call (and the next argument) arrives. Awaiting styles only.
+template <bool WithArg, typename Gen>
+cocls::async<void> g_consume_coro(g_world &W, Gen &g, vf::rng r) {
+    int nextarg = 100;
+    for (int step = 0; step < W.max_items; step++) {
+        int style = r.chance(1, 2) ? GS_CALL_AWAIT : GS_AWAIT_NEXT;
+        W.styles_used.push_back(style);
+        int arg = nextarg++;
+        if (WithArg) W.args_sent.push_back(arg);
+        long item = -1;
+        try {
+            if (style == GS_CALL_AWAIT) {
+                if constexpr (WithArg) { cocls::future<int> f = g(arg); bool hv = co_await f.has_value(); if (hv) item = f.value(); }
+                else { cocls::future<int> f = g(); bool hv = co_await f.has_value(); if (hv) item = f.value(); }
+            } else {
+                bool b;
+                if constexpr (WithArg) { b = co_await g.next(arg); } else { b = co_await g.next(); }
+                if (b) item = g.value();
+            }
+        } catch (const vf::test_exc &e) { item = -1000 - e.code; }
+        catch (...) { item = -888888; }
+        W.got.push_back(item);
+        if (item < 0) break;
+        if (r.chance(1, 4)) co_await cocls::pause();
+    }
+    W.consumer_done.store(1, std::memory_order_release);
+}
+// ordinary code that starts the consumer coroutine and (single-thread programs) completes the pending awaits itself
+template <bool WithArg, typename Gen>
+void g_consume_by_coro(g_world &W, Gen &g, vf::rng r, bool helper_resolves) {
+    g_consume_coro<WithArg>(W, g, r).detach();
+    unsigned spins = 0; int next_pending = 0;
+    while (!W.consumer_done.load(std::memory_order_acquire)) {
+        if (helper_resolves) g_polite_wait(spins);
+        else if (next_pending < G_NPEND) (*W.pprom[next_pending++])();
+        else break;
+    }
+}
+
 // whole-sequence walks (no style mixing): range-for, and a post-increment walk (operator++(int) returns a holder of the current value
 // and advances in the same call). Only used for scripts that do not throw: with post-increment the advance that surfaces the
 // exception also swallows the holder of the previous value - one operation, not a defect.
@@ -230,7 +270,8 @@ inline void generator_programs(const vf::opts &o, vf::report &R, vf::team &T, ui
         bool allow_sync = mt || !has_pending;
         bool script_throws = false; for (auto &op : W.scripts[0]) if (op.kind == GO_THROW) script_throws = true;
         int walk = (!with_arg && allow_sync && drop_mode >= 2 && !script_throws && r.chance(1, 5)) ? 1 + (int)r.below(2) : 0; // 1 range-for, 2 post-increment walk
-        std::string desc = std::string(walk == 1 ? "[range-for walk] " : walk == 2 ? "[post-increment walk] " : "") + std::string(with_arg ? "generator<int,int> " : "generator<int> ") + "[" + g_script_str(W.scripts[0]) + "] " + (mt ? "pending awaits completed by either thread" : "single thread") + (drop_mode == 0 ? " dropped before start" : drop_mode == 1 ? " dropped at a yield" : "");
+        bool coro_consumer = !walk && r.chance(1, 4); // the consumer is one coroutine for the whole sequence
+        std::string desc = std::string(walk == 1 ? "[range-for walk] " : walk == 2 ? "[post-increment walk] " : coro_consumer ? "[consumer is one coroutine] " : "") + std::string(with_arg ? "generator<int,int> " : "generator<int> ") + "[" + g_script_str(W.scripts[0]) + "] " + (mt ? "pending awaits completed by either thread" : "single thread") + (drop_mode == 0 ? " dropped before start" : drop_mode == 1 ? " dropped at a yield" : "");
         std::string plan = T.plan(r, sites, (int)(sizeof sites / sizeof sites[0]));
         vf::set_crash_ctx(R.prop.c_str(), "generator_programs", o.seed, pn, desc.c_str());
         std::string err;
@@ -242,11 +283,11 @@ inline void generator_programs(const vf::opts &o, vf::report &R, vf::team &T, ui
                 vf::rng cr(vf::mix(pseed, 5));
                 if (mt) {
                     T.round([&](int tid) {
-                        if (tid == 0) { if (walk) g_consume_walk(W, *g0, walk - 1); else if (with_arg) g_consume<true>(W, *g1, cr, allow_sync, true); else g_consume<false>(W, *g0, cr, allow_sync, true); }
+                        if (tid == 0) { if (walk) g_consume_walk(W, *g0, walk - 1); else if (coro_consumer) { if (with_arg) g_consume_by_coro<true>(W, *g1, cr, true); else g_consume_by_coro<false>(W, *g0, cr, true); } else if (with_arg) g_consume<true>(W, *g1, cr, allow_sync, true); else g_consume<false>(W, *g0, cr, allow_sync, true); }
                         else if (tid == 1) g_resolver(W, pseed, tid);
                     });
                 } else {
-                    if (walk) g_consume_walk(W, *g0, walk - 1); else if (with_arg) g_consume<true>(W, *g1, cr, allow_sync, false); else g_consume<false>(W, *g0, cr, allow_sync, false);
+                    if (walk) g_consume_walk(W, *g0, walk - 1); else if (coro_consumer) { if (with_arg) g_consume_by_coro<true>(W, *g1, cr, false); else g_consume_by_coro<false>(W, *g0, cr, false); } else if (with_arg) g_consume<true>(W, *g1, cr, allow_sync, false); else g_consume<false>(W, *g0, cr, allow_sync, false);
                 }
                 if (!W.consumer_done.load()) err = "consumer never completed although every awaited operation was resolved";
                 // drop the generator now (parked at a yield, or finished)
@@ -286,6 +327,7 @@ inline void generator_programs(const vf::opts &o, vf::report &R, vf::team &T, ui
         for (int s : W.styles_used) R.cls(std::string("style: ") + gs_name(s));
         if (mt && has_pending) R.cls("programs_with_cross_thread_completion");
         if (walk) R.cls(walk == 1 ? "whole_sequence_range_for" : "whole_sequence_post_increment_walk");
+        if (coro_consumer) R.cls("consumer_is_one_coroutine");
         if (drop_mode <= 1) R.cls("programs_dropping_the_generator_early");
         if (R.samples.size() < 4 && W.got.size() > 3) { std::string sn; for (int s : W.styles_used) sn += std::string(gs_name(s)) + ", "; R.sample(vf::jobj().kv("program", desc).kv("styles", sn).kv("observed", g_got_str(W.got)).str()); }
     }
@@ -319,6 +361,8 @@ inline void aggregator_programs(const vf::opts &o, vf::report &R, vf::team &T, u
         std::string desc = std::string(with_arg ? "aggregator<int,int> of " : "aggregator<int> of ") + std::to_string(nsrc) + " sources: ";
         for (int s = 0; s < nsrc; s++) desc += "[" + g_script_str(W.scripts[(size_t)s]).substr(0, 60) + "] ";
         desc += mt ? "(two threads)" : "(single thread)";
+        bool coro_consumer = r.chance(1, 3); // the consumer is one coroutine for the whole sequence (ready queue active between the calls)
+        if (coro_consumer) desc += " [consumer is one coroutine]";
         if (stop_early) desc += " destroyed after " + std::to_string(W.max_items) + " items";
         std::string plan = T.plan(r, sites, (int)(sizeof sites / sizeof sites[0]));
         vf::set_crash_ctx(R.prop.c_str(), "aggregator_programs", o.seed, pn, desc.substr(0, 300).c_str());
@@ -330,11 +374,12 @@ inline void aggregator_programs(const vf::opts &o, vf::report &R, vf::team &T, u
             vf::rng cr(vf::mix(pseed, 5));
             if (mt) {
                 T.round([&](int tid) {
-                    if (tid == 0) { if (with_arg) g_consume<true>(W, *g1, cr, allow_sync, true); else g_consume<false>(W, *g0, cr, allow_sync, true); }
+                    if (tid == 0) { if (coro_consumer) { if (with_arg) g_consume_by_coro<true>(W, *g1, cr, true); else g_consume_by_coro<false>(W, *g0, cr, true); } else if (with_arg) g_consume<true>(W, *g1, cr, allow_sync, true); else g_consume<false>(W, *g0, cr, allow_sync, true); }
                     else if (tid == 1) g_resolver(W, pseed, tid);
                 });
             } else {
-                if (with_arg) g_consume<true>(W, *g1, cr, allow_sync, false); else g_consume<false>(W, *g0, cr, allow_sync, false);
+                if (coro_consumer) { if (with_arg) g_consume_by_coro<true>(W, *g1, cr, false); else g_consume_by_coro<false>(W, *g0, cr, false); }
+                else if (with_arg) g_consume<true>(W, *g1, cr, allow_sync, false); else g_consume<false>(W, *g0, cr, allow_sync, false);
             }
             if (!W.consumer_done.load()) { err = "consumer never completed although every awaited operation was resolved"; (void)Wp.release(); }
             else {
@@ -410,6 +455,7 @@ inline void aggregator_programs(const vf::opts &o, vf::report &R, vf::team &T, u
         R.cls("sources", (uint64_t)nsrc);
         if (mt && has_pending) R.cls("programs_with_cross_thread_completion");
         if (stop_early) R.cls("programs_destroying_the_aggregate_while_parked");
+        if (coro_consumer) R.cls("consumer_is_one_coroutine");
         if (R.samples.size() < 4 && nsrc >= 3) R.sample(vf::jobj().kv("program", desc).kv("observed", g_got_str(W.got)).str());
     }
 }
